@@ -22,7 +22,7 @@ impl SoundData for KvData {
 	fn into_sound(self) -> Result<(Box<dyn Sound>, ()), ()> { if self.fail { Err(()) } else { Ok((Box::new(KvFlagSound), ())) } }
 }
 
-// @h prop=C07 tier=quick kind=main timeout=280
+// @h prop=C07 tier=quick kind=main timeout=600
 // @bounds real MainTrack + MainTrackHandle (capacity 1): a sound handed over by play(), then ONE callback (on_start_processing + process of one frame)
 // @funcs MainTrackHandle::play, MainTrack::{on_start_processing,process}, ResourceStorage::remove_and_add, ResourceController::insert
 // @catches a newly played sound being rendered in its first callback WITHOUT having received on_start_processing (commands written before pick-up are then applied one callback late)
@@ -47,7 +47,7 @@ fn c07_new_sound_gets_its_commands_in_the_pickup_callback() {
 	std::mem::forget(track); std::mem::forget(handle); std::mem::forget(clocks); std::mem::forget(modulators); std::mem::forget(listeners);
 }
 
-// @h prop=C08 tier=quick kind=main timeout=280
+// @h prop=C08 tier=quick kind=main timeout=600
 // @bounds real MainTrackHandle of capacity 1: play() of a SoundData whose into_sound fails (symbolic), then play() of a good one
 // @funcs MainTrackHandle::{play,num_sounds,sound_capacity}, ResourceController::{insert,try_reserve,len}
 // @catches a slot reserved before into_sound() and leaked when it fails: the count then includes sounds that never existed and the track fills up with nothing alive
